@@ -13,7 +13,7 @@
 ##############################################################################
 """Data Chunk Receiver"""
 
-from waitress.rfc7230 import CHUNK_EXT_RE, ONLY_HEXDIG_RE
+from waitress.rfc7230 import CHUNK_EXT_RE, HEADER_FIELD_RE, ONLY_HEXDIG_RE
 from waitress.utilities import BadRequest, find_double_newline
 
 
@@ -185,6 +185,14 @@ class ChunkedReceiver:
                     # Finished the trailer.
                     self.completed = True
                     self.trailer = trailer[:pos]
+
+                    for line in self.trailer.split(b"\r\n"):
+                        # trailer fields are header fields: no bare CR/LF,
+                        # "token: value" only
+                        if line and not HEADER_FIELD_RE.match(line):
+                            self.error = BadRequest("Invalid trailer field")
+
+                            break
 
                     return orig_size - (len(trailer) - pos)
 
